@@ -123,13 +123,19 @@ def locked_engine(fl, hi):
     return e
 
 
-def locked_table(ctx, fl, hi, col):
+def locked_table(ctx, fl, hi, col, stale=0):
     e = locked_engine(fl, hi)
+    if stale:       # the engine was in use before the export: its output holds the constant of rule B
+        for iv in e.input_variables:
+            iv.value = 5.0
+        e.process()
+        if float(np.asarray(e.output_variables[0].value)) != float(stale):
+            raise MachineryError("the locked engine does not hold the stale value")
     rows = 1
     for h in hi:
         rows *= h + 1
     equal = all(h == hi[0] for h in hi)
-    case = {"radices": [h + 1 for h in hi], "rows": rows, "lock_previous": True}
+    case = {"radices": [h + 1 for h in hi], "rows": rows, "lock_previous": True, "value_held_before_the_export": stale}
     ctx.count()
     ctx.traces += 1
     ctx.case(("table", tuple(hi)), nontrivial=True)
@@ -159,11 +165,12 @@ def run(ctx: core.Ctx):
     fl = core.import_fuzzylite()
     rng = random.Random(ctx.seed)
     ctx.extra["_rng"] = rng
-    head = "SPECIFICATION Spec\nCONSTANTS VMax = 2000\n  KMax = 5\n  Emit = {e}\n  FloorRoot = {f}\n  RestartEvery = {r}\n"
-    g = ctx.tlc("MC_FldGrid", write_cfg("MC_FldGrid", head.format(e="TRUE", f="FALSE", r=0) + "INVARIANT RootIsIntegerRoot\nINVARIANT CounterIsLexicographic\nINVARIANT CounterStopsAtEnd\nINVARIANT HoldsAcrossRows\nINVARIANT EmitInv\nCHECK_DEADLOCK FALSE\n"), workers=16)
+    head = "SPECIFICATION Spec\nCONSTANTS VMax = 2000\n  KMax = 5\n  Emit = {e}\n  FloorRoot = {f}\n  RestartEvery = {r}\n  SkipFirstRestart = {s}\n"
+    g = ctx.tlc("MC_FldGrid", write_cfg("MC_FldGrid", head.format(e="TRUE", f="FALSE", r=0, s="FALSE") + "INVARIANT RootIsIntegerRoot\nINVARIANT CounterIsLexicographic\nINVARIANT CounterStopsAtEnd\nINVARIANT HoldsAcrossRows\nINVARIANT EmitInv\nCHECK_DEADLOCK FALSE\n"), workers=16)
     ctx.expect_holds(g, "MC_FldGrid")
-    ctx.expect_canary(ctx.tlc("MC_FldGrid", write_cfg("MC_FldGrid_canary", head.format(e="FALSE", f="TRUE", r=0) + "INVARIANT RootIsIntegerRoot\nCHECK_DEADLOCK FALSE\n"), workers=4), "FloorRoot")
-    ctx.expect_canary(ctx.tlc("MC_FldGrid", write_cfg("MC_FldGrid_canary2", head.format(e="FALSE", f="FALSE", r=1024) + "INVARIANT HoldsAcrossRows\nCHECK_DEADLOCK FALSE\n"), workers=4), "RestartEvery")
+    ctx.expect_canary(ctx.tlc("MC_FldGrid", write_cfg("MC_FldGrid_canary", head.format(e="FALSE", f="TRUE", r=0, s="FALSE") + "INVARIANT RootIsIntegerRoot\nCHECK_DEADLOCK FALSE\n"), workers=4), "FloorRoot")
+    ctx.expect_canary(ctx.tlc("MC_FldGrid", write_cfg("MC_FldGrid_canary2", head.format(e="FALSE", f="FALSE", r=1024, s="FALSE") + "INVARIANT HoldsAcrossRows\nCHECK_DEADLOCK FALSE\n"), workers=4), "RestartEvery")
+    ctx.expect_canary(ctx.tlc("MC_FldGrid", write_cfg("MC_FldGrid_canary3", head.format(e="FALSE", f="FALSE", r=0, s="TRUE") + "INVARIANT HoldsAcrossRows\nCHECK_DEADLOCK FALSE\n"), workers=4), "SkipFirstRestart")
     roots = {(r["v"], r["n"]): r["k"] for r in g.emitted if r["kind"] == "root"}
     counts = [r for r in g.emitted if r["kind"] == "count"]
     if len(roots) != 8000 or len(counts) < 20:
@@ -186,10 +193,10 @@ def run(ctx: core.Ctx):
     ctx.sample({"maximum": counts[3]["hi"], "visited_first": counts[3]["visited"][:5]})
     # the table of an engine that locks its previous output, over more than a thousand rows (spec: FldGrid!RowValue)
     tables = [r for r in g.emitted if r["kind"] == "table"]
-    if len(tables) < 4:
-        raise MachineryError(f"expected 4 tables, got {len(tables)}")
+    if len(tables) < 8:
+        raise MachineryError(f"expected 8 tables, got {len(tables)}")
     for tb in tables:
-        locked_table(ctx, fl, tb["hi"], tb["col"])
+        locked_table(ctx, fl, tb["hi"], tb["col"], tb["stale"])
     # exports
     engines = {n: make_engine(fl, n, RANGES) for n in (1, 2, 3, 4)}
     reversed_engines = {n: make_engine(fl, n, RANGES_REVERSED) for n in (1, 2, 3, 4)}
@@ -273,7 +280,7 @@ def replay(v) -> int:
             def violation(self, kind, case, want, got, note="", **k):
                 R.bad += 1
                 print(f"{kind}: expected {want}, observed {got}  {note}")
-        locked_table(R(), fl, hi, col)
+        locked_table(R(), fl, hi, col, c.get("value_held_before_the_export", 0))
         if R.bad:
             print("VIOLATION property=C18 replay=(given)")
             return 1
